@@ -41,6 +41,9 @@ func Main(prop string) {
 		if vh.ReadReplayCase(o.Replay, &c) {
 			c.Origin = "replay"
 			cases = append(cases, c)
+		} else {
+			fmt.Println("replay file " + o.Replay + " cannot be read or holds no case (a file that only names a broken theorem or correspondence has nothing to re-run)")
+			os.Exit(4)
 		}
 	} else {
 		for _, f := range vh.CorpusFiles(o.Corpus) {
@@ -199,6 +202,16 @@ func Main(prop string) {
 			}
 			if g.Updates > 1 {
 				later = true
+			}
+		}
+		for _, e := range co.res.Events {
+			if e.Kind == "paused" {
+				run.Hist("schedule:asynchronous-close-held")
+			}
+		}
+		for _, ct := range closeTasks(co.res.Events) {
+			if ct.ClosedGen < 0 {
+				run.Hist("schedule:close-task-found-nothing")
 			}
 		}
 		run.Hist(fmt.Sprintf("generations:%d", min(len(v.gens), 6)))
